@@ -297,6 +297,81 @@ Theorem C20_failed_reuse_run_loses_region_files :
 Proof. exact failed_reuse_run_loses_region_files. Qed.
 Print Assumptions C20_failed_reuse_run_loses_region_files.
 
+(* ---- the complete run: main.run_antismash, the wrapper that sets up logging (repaired defect FC20d) ---- *)
+
+(* the refusal test comes before any write: a run with a log file whose output path exists and is turned down by
+   the refusal test (_refusal_reason: not a directory, or fresh input and foreign content) ends at once with an
+   AntismashInputError, logged once - for EVERY effect the logging set-up could have (setup): no stage of the run
+   happens, the set-up (os.makedirs, logging.FileHandler) does not take place, directory, JSON target and trace
+   are as they were *)
+Theorem C20_refusal_test_before_any_write :
+  forall setup pl v kind reuse dmeta entries records results hk w,
+  lg_given v = true -> kind <> 0 -> refusal_reason v kind reuse dmeta entries = true ->
+  outer_run_antismash setup pl v kind reuse dmeta entries records results hk w =
+  (log_error w, Err E_Input, kind, entries).
+Proof. exact outer_refused_before_any_write. Qed.
+Print Assumptions C20_refusal_test_before_any_write.
+
+(* ... which covers every directory prepare_output_directory itself would refuse with AntismashInputError *)
+Theorem C20_wrapper_refuses_what_prepare_refuses :
+  forall setup pl v kind reuse dmeta entries records results hk w kp esp,
+  lg_given v = true ->
+  prepare_output_directory v kind reuse dmeta entries = (Err E_Input, kp, esp) ->
+  outer_run_antismash setup pl v kind reuse dmeta entries records results hk w =
+  (log_error w, Err E_Input, kind, entries).
+Proof. exact outer_refuses_what_prepare_refuses. Qed.
+Print Assumptions C20_wrapper_refuses_what_prepare_refuses.
+
+(* a refused run writes nothing - the second clause of the property for the complete run_antismash: fresh input,
+   existing directory with foreign content, ANY plan, ANY effect of the logging set-up: the run does not return 0,
+   listing and JSON target are untouched, at most the one error is logged, no stage after
+   prepare_output_directory happens; with a log file no stage happens at all; and the outcome is the same for
+   every set-up (it is never run, or - without a log file - writes nothing).  This is the clause FC20d broke: with
+   --logfile inside the directory the set-up used to come first and created the file there *)
+Theorem C20_refused_run_writes_nothing :
+  forall setup pl v dmeta entries records results hk w w' r kd es,
+  existsb (foreign v) entries = true ->
+  outer_run_antismash setup pl v 1 false dmeta entries records results hk w = (w', r, kd, es) ->
+  r <> Ok 0 /\ kd = 1 /\ es = entries /\ w_file w' = w_file w /\ w_log w <= w_log w' <= w_log w + 1 /\
+  (exists pre, w_trace w' = w_trace w ++ pre /\ Forall (stage_ev 20 23 (cstate (w_file w))) pre) /\
+  (lg_given v = true -> w_trace w' = w_trace w /\ r = Err E_Input) /\
+  (forall setup', outer_run_antismash setup' pl v 1 false dmeta entries records results hk w = (w', r, kd, es)).
+Proof. exact outer_foreign_untouched. Qed.
+Print Assumptions C20_refused_run_writes_nothing.
+
+(* the early test turns down no run that could have succeeded: prepare_output_directory refuses the same
+   directory, and _run_antismash on it never returns 0 and leaves directory and JSON target as they were *)
+Theorem C20_early_refusal_sound : forall v kind reuse dmeta entries,
+  early_refusal v kind reuse dmeta entries = true ->
+  prepare_output_directory v kind reuse dmeta entries = (Err E_Input, kind, entries) /\
+  forall pl records results hk w w' r kd es,
+    run_antismash pl v kind reuse dmeta entries records results hk w = (w', r, kd, es) ->
+    r <> Ok 0 /\ kd = kind /\ es = entries /\ w_file w' = w_file w.
+Proof. exact early_refusal_sound. Qed.
+Print Assumptions C20_early_refusal_sound.
+
+(* without a log file the wrapper is _run_antismash plus the logging of an AntismashInputError *)
+Theorem C20_wrapper_without_logfile : forall setup pl v kind reuse dmeta entries records results hk w,
+  lg_given v = false ->
+  outer_run_antismash setup pl v kind reuse dmeta entries records results hk w =
+  log_input_error (run_antismash pl v kind reuse dmeta entries records results hk w).
+Proof. exact outer_without_logfile. Qed.
+Print Assumptions C20_wrapper_without_logfile.
+
+(* what the early test is for (the witness of FC20d on the order the code had before the repair, logging set up
+   first): out/ holds one foreign file, --logfile out/<new name>, fresh input: refused, but the listing has
+   gained the log file; the repaired order refuses with the listing as it was *)
+Theorem C20_logging_first_would_write_into_refused_directory :
+  exists pl v entries records results w' es,
+    existsb (foreign v) entries = true /\
+    outer_logging_first (log_setup v) pl v 1 false false entries records results 0 (initial_world 0)
+      = (w', Err E_Input, 1, es) /\
+    es = log_entry v :: entries /\ es <> entries /\
+    outer_run_antismash (log_setup v) pl v 1 false false entries records results 0 (initial_world 0)
+      = (log_error (initial_world 0), Err E_Input, 1, entries).
+Proof. exact logging_first_writes_into_refused_directory. Qed.
+Print Assumptions C20_logging_first_would_write_into_refused_directory.
+
 (* ---- non-vacuity ---- *)
 
 (* two records, three results; the second record's gather_record_areas raises ValueError: the plan counts
@@ -490,3 +565,22 @@ Example C20_ex_truthiness :
   write_to_file records [[mkM 2 0 11 0 0 0 0; mkM 2 0 12 0 3 0 4]] 0 0 (initial_world 0) =
   (mkW COld 0 [mkEv 1 0 0 1; mkEv 2 0 0 1; mkEv 3 0 0 1; mkEv 4 0 0 1], Err E_Key).
 Proof. repeat split; vm_compute; reflexivity. Qed.
+
+(* the wrapper: a log file asked for inside an existing directory that holds the old JSON and a foreign file,
+   fresh input (the hypotheses of C20_refused_run_writes_nothing and C20_refusal_test_before_any_write): refused
+   with an empty trace and one logged error; the same directory in reuse mode is not refused early - the set-up
+   adds the log file (id -1), the run goes on and succeeds *)
+Example C20_ex_wrapper :
+  let pl := mkPP 0 true 0 0 [mkRP false 0 true 0] 0 0 false in
+  let v := mkEnv true (mkP 0 7) (mkP 9 99) in
+  let entries := [mkE 0 0 true false false false; mkE 1 1 true false false false] in
+  existsb (foreign v) entries = true /\ refusal_reason v 1 false false entries = true /\
+  outer_run_antismash (log_setup v) pl v 1 false false entries [mkR 0 0 0 0 false] [[mkM 2 0 11 0 0 0 0]] 0
+    (initial_world 0) = (mkW COld 1 [], Err E_Input, 1, entries) /\
+  exists t, outer_run_antismash (log_setup v) pl v 1 true false entries [mkR 0 0 0 0 false]
+              [[mkM 2 0 11 0 0 0 0]] 0 (initial_world 0) =
+            (mkW (CNew [(false, [mkMJ 0 11 0 0])]) 0 t, Ok 0, 1, log_entry v :: entries).
+Proof.
+  split; [reflexivity|]. split; [reflexivity|]. split; [vm_compute; reflexivity|].
+  eexists. vm_compute. reflexivity.
+Qed.
